@@ -245,4 +245,4 @@ def run(ctx, tier, res, tag=''):
 def main(tier, seed):
     from ..ctx import run_all_configs
     res = Result('C08', tier, 'proof', seed)
-    return run_all_configs(run, tier, res)
+    return run_all_configs(run, tier, res, strict=True)
